@@ -230,6 +230,18 @@ CHECKS = {
         "fixed by the documentation). PostgreSQL dialect runs on the SQLite surrogate.",
         "4/C27",
     ),
+    "C17": (
+        "algebraic-law runtime monitor on the real RecordMap + reference pivot/unpivot; Pandas vs Polars",
+        "Random strict record specifications (1-2 control key columns, 1-3 value columns, 2-4+ block rows, 0-2 record keys) "
+        "and conforming data (unique record keys, null values, 0-6 records): unpivot and pivot results must equal a "
+        "reference on lists of dicts; inverse() round trips must return the original table in both directions; for a "
+        "second layout of the same content names compose() and >> must equal sequential application; the Polars "
+        "executor must return what the Pandas executor returns; convert_records in a pipeline must equal "
+        "transform(); pivot_/unpivot_specification helpers obey the same laws; the caller's frame (non-default index) "
+        "must be unchanged after transform() and frame >> record_map.",
+        "Trusted: the 40-line reference pivot/unpivot. Polars raising (schema errors on all-null columns) is a refusal.",
+        "4/C17",
+    ),
 }
 
 NOT_BUILT = "check not built yet (build in progress, see DESIGN.md section 8)"
